@@ -86,13 +86,17 @@ struct C27 : Monitor {
     }
     void Eviction(Sim& sim, const Step& st, const std::string& cls, const std::set<Txid>& replaced, const std::vector<PoolTx>& added)
     {
-        // pool just before trimming = pre - replaced - expired + new
+        // pool just before trimming = (pre - replaced + new) - expired, where expiry takes every descendant along
+        // (also a just-accepted child of an expired tx)
         int64_t cutoff = st.post.now - (int64_t)sim.pool().m_opts.expiry.count();
-        Snap mid;
+        Snap all;
+        for (auto& t : st.pre.txs) if (!replaced.count(t.tx->GetHash())) all.txs.push_back(t);
+        for (auto& t : added) { PoolTx n2 = t; if (n2.time == 0) n2.time = st.post.now; all.txs.push_back(n2); }
+        all.Link();
         std::set<Txid> expired;
-        for (size_t i = 0; i < st.pre.txs.size(); i++) if (st.pre.txs[i].time < cutoff) for (size_t d : st.pre.Desc(i)) expired.insert(st.pre.txs[d].tx->GetHash());
-        for (auto& t : st.pre.txs) { Txid h = t.tx->GetHash(); if (!replaced.count(h) && !expired.count(h)) mid.txs.push_back(t); }
-        for (auto& t : added) mid.txs.push_back(t);
+        for (size_t i = 0; i < all.txs.size(); i++) if (all.txs[i].time < cutoff) for (size_t d : all.Desc(i)) expired.insert(all.txs[d].tx->GetHash());
+        Snap mid;
+        for (auto& t : all.txs) if (!expired.count(t.tx->GetHash())) mid.txs.push_back(t);
         mid.Link();
         std::set<Txid> evicted;
         for (auto& t : mid.txs) if (!st.post.has(t.tx->GetHash())) evicted.insert(t.tx->GetHash());
